@@ -137,8 +137,10 @@ def input_method_term(facts, fn, wrapped_field='input'):
     a = facts.adt_by_path.get(adt)
     if a:
         for i, fld in enumerate(a['variants'][0]['fields']):
-            if fld['name'] == wrapped_field:
-                ev.extra_inputs.append(('field', ('self',), i, fld['name']))
+            # the wrapped input is the field that plays that role (a `&mut I`), whatever it is called
+            if facts.canon_field(a['path'], fld['name']) == wrapped_field or fld['name'] == wrapped_field:
+                ev.extra_inputs.append(('field', ('self',), i, wrapped_field))
+                break
     v, t = ev.ev(fn['thir'], ctx)
     return t, v, ev
 
@@ -700,3 +702,41 @@ def guard_canon(text, g, term=None):
     out = _re.sub(r'\bself\.%s\b' % _re.escape(g['slice']), 'self.slice', out)
     out = out.replace('%s::%s{' % (g['short'], g['short']), 'State::State{')
     return out
+
+
+
+def select_value(v, leaf, depth=0):
+    """the leaf value a conditional value takes under the valuation `leaf` (ifval / matchval resolved by evaluation,
+    Result wrappers looked through); None when a condition cannot be decided"""
+    v = strip(v)
+    if depth > 12 or not isinstance(v, tuple) or not v:
+        return v
+    if v[0] == 'res':
+        return select_value(v[1], leaf, depth + 1)
+    if v[0] == 'ifval':
+        try:
+            c = eval_expr(v[1], leaf)
+        except ArithPanic:
+            return None
+        if c is None:
+            return None
+        return select_value(v[2] if c else v[3], leaf, depth + 1)
+    if v[0] == 'matchval':
+        try:
+            sv = eval_expr(v[1], leaf)
+        except ArithPanic:
+            return None
+        if sv is None:
+            return None
+        for d, x in v[2]:
+            if isinstance(d, tuple) and d[0] == 'pat':
+                if d[2] is None or any(lo <= sv <= hi for lo, hi in d[2]):
+                    return select_value(x, leaf, depth + 1)
+            elif isinstance(d, tuple) and d[0] == 'guard':
+                c = eval_expr(d[2], leaf)
+                if c is None:
+                    return None
+                if c:
+                    return select_value(x, leaf, depth + 1)
+        return None
+    return v
